@@ -215,10 +215,34 @@ def gen_cases(tier, seed, purpose="c01"):
                                   ops=rp.ops_used))
     if purpose == "c01":
         cases += bits8_cases(tier, seed, k)
+        cases += concrete_only_cases(tier, seed, k + 1000)
     elif purpose == "c02":
         # three-view on the bit-level protocols (B2A's extra key exchange, A2B's resharing); thorough configurations
         # are cheap here (1-10 s each); the known-finding configuration is C01's
         cases += [c for c in bits8_cases("thorough", seed, k) if "key" not in c and (tier == "thorough" or c.get("real_st", "u8") == "u8")]
+    return cases
+
+
+def concrete_only_cases(tier, seed, k0):
+    """bit-level protocols the solver cannot decide (wide A2B/B2A, private x private MixedMultiply and chains,
+    compiled Sort): SAMPLED differential - the real evaluator on the compiled graph vs the real evaluator on the
+    source graph on boundary/random vectors, several sharings and PRNG seeds. Counted separately in the evidence."""
+    cases = []
+    bt = bool_templates()
+    k = k0
+    plan = [("a2b", ["i32", "u64", "i128"]), ("b2a", ["u32", "i64", "u128"]), ("a2b_b2a_sum", ["i64", "u128"]), ("mixed_mul", ["u8", "i64", "i128"]),
+            ("mixed_mul_chain", ["u8", "i64"]), ("sort", ["u8", "i64"]), ("apply_perm", ["i64", "u128"])]
+    for name, sts in plan:
+        for st in (sts if tier == "thorough" else sts[:2]):
+            prog, in_types = instantiate_bool(name, bt[name], st)
+            cfgs = pick_configs(len(in_types), k, seed, 2 if tier == "quick" else 6)
+            for owners, outs, mode in cfgs:
+                if name == "apply_perm":
+                    owners = [owners[0], "public"]
+                k += 1
+                cases.append(dict(id="X:%s:%s:%s:%s:%s" % (name, st, "".join(str(o)[0] for o in owners), "".join(map(str, outs)) or "-", mode), template="X:" + name, st="bit", real_st=st,
+                                  prog=prog, in_types=[t.to_json() for t in in_types], owners=owners, outs=outs, mode=mode, kind="bits", vseed=seed * 1000 + k, ref="S",
+                                  concrete_only=True, n_evals=4 if tier == "quick" else 12))
     return cases
 
 
@@ -248,7 +272,8 @@ def bits8_cases(tier, seed, k0):
 
 
 def bounds(tier):
-    return dict(bit_level_protocols_at_8_bits="A2B, B2A, A2B(x+y)->B2A, shared-bit AND/XOR, compiled ApplyPermutation (public permutation): monolithic queries, 2 configurations each",
+    return dict(sampled_concrete_differential="bit-level protocols beyond the solver's reach (A2B/B2A at 32..128 bits, private x private MixedMultiply and chains, compiled Sort, ApplyPermutation on wide data): real evaluator on compiled vs source graph on 4 (quick) / 12 (thorough) vectors each - SAMPLED, counted as concrete_only_*",
+                bit_level_protocols_at_8_bits="A2B, B2A, A2B(x+y)->B2A, shared-bit AND/XOR, compiled ApplyPermutation (public permutation): monolithic queries, 2 configurations each",
                 ring_templates=len(ring_templates()), random_compositions=40 if tier == "quick" else 200,
                 scalar_types="8-bit twin + one of bit,u16,i16,i32,u32,u64,i64,u128,i128 per template (quick) / all (thorough)",
                 max_elements=8, max_rank=3, composition_ops="3..6 (quick) / 3..9 (thorough)",
